@@ -112,6 +112,10 @@ int main(int argc, char **argv) {
     for (size_t n = 1; n <= 38; n++) sweep.push_back({576, n});
     if (a.quick()) { for (size_t n : {103u, 104u}) sweep.push_back({1500, n}); for (size_t n : {655u, 656u}) sweep.push_back({9216, n}); }
     else { for (size_t n = 1; n <= 104; n++) sweep.push_back({1500, n}); for (size_t n = 1; n <= 656; n++) sweep.push_back({9216, n}); }
+    // the capacity floor((MTU-34)/14) itself: maximum-size Emits (n = capacity, capacity-1) for a dense range of MTUs, every residue mod 14
+    auto cap = [](size_t mtu) { return (mtu - 34) / 14; };
+    for (size_t mtu = 576; mtu <= (a.quick() ? 660u : 9216u); mtu += (a.quick() || mtu < 2000) ? 1 : 7) { sweep.push_back({mtu, cap(mtu)}); sweep.push_back({mtu, cap(mtu) - 1}); }
+    for (size_t mtu : {1280u, 1492u, 1500u, 1514u, 2304u, 4352u, 9000u, 9212u}) { sweep.push_back({mtu, cap(mtu)}); sweep.push_back({mtu, cap(mtu) - 1}); }
     for (size_t k = a.shard; k < sweep.size() && ok; k += a.nshards) {
         for (int bridged = 0; bridged < 2 && ok; bridged++) {
             HCfg h; h.mtu = sweep[k].first;
